@@ -19,7 +19,8 @@ PLANAR_BOX = 50.0  # |w.u| above which float32 softplus in the planar projection
 PLANAR_WU_MIN = -10.0  # below this the margin softplus(w.u) ~ e^(w.u) approaches float32 resolution next to 1
 RAW_BOX = 50.0  # the property's raw-parameter box
 HUGE_LOSS = 1e12  # |batch loss| above which float32 gradient overflow (not NaN branches) is the expected outcome
-EXPLODED_PARAM = 1e3  # a trainable leaf beyond this magnitude: training has diverged (far outside any bounded raw-parameter box)
+EXPLODED_PARAM = 50.0  # a trainable leaf beyond the raw-parameter box of the property family (|raw| <= 50, 'where float32 softplus does not
+# underflow'): training has diverged; e.g. a weight-norm scale of raw -57 makes a block-diagonal weight exactly 0 and log(0) poisons the gradient
 
 
 def _crashed(result):
@@ -1122,7 +1123,7 @@ def oracle_c18(world, result):
             break
         exploded = any(a.size and float(np.max(np.abs(a))) > EXPLODED_PARAM for a in s["params"])
         if p_fin and np.isfinite(loss) and exploded:
-            # training has already diverged (a parameter beyond 1e3 in magnitude, reached through an enormous but finite
+            # training has already diverged (a parameter outside the +-50 raw box, reached through an enormous but finite
             # gradient): the property quantifies over parameters 'at initialisation and perturbed', and in such states
             # non-finite gradients are float32 cancellation/overflow (e.g. the spline inverse's quadratic with knot
             # derivatives of 1e8), not the unselected-branch NaNs the property is about
